@@ -125,8 +125,53 @@ def nearest(rec, key, det, ds, slon, slat, qlon, qlat, qconv, tol, kw, rng, E):
     if amb:
         rec.skip("nearest", "equidistant candidates or distance equal to the tolerance")
         return
+    variant = str(rng.choice(["plain", "plain", "unique", "ignore", "exact"]))
+    key += "|" + variant
+    if variant == "unique":
+        kw = dict(kw, unique=True)
+        seen, exp2 = set(), []
+        for s_ in exp:
+            if s_ not in seen:
+                seen.add(s_)
+                exp2.append(s_)
+        if not fail:
+            exp = exp2
+    elif variant == "ignore":
+        kw = dict(kw, missing="ignore")
+        keep = [k for k, (lo, la) in enumerate(zip(qlon, qlat)) if dist(slon, slat, lo, la).min() <= tol]
+        exp = [exp[k] for k in keep]
+        fail = False
+        if not exp:
+            try:
+                ds.spec.sel(list(qlon), list(qlat), method="nearest", tolerance=tol, **kw)
+                rec.bad("nearest", key, dict(det, expected="ValueError: no site within tolerance"), "nearest-ignore-returns-nothing-silently")
+            except ValueError:
+                rec.ok("nearest", key + "|nothing-in-range-rejected")
+            except Exception as e:
+                rec.bad("nearest", key, dict(det, raised=repr(e)[:200]), "sel-raises")
+            return
+    elif variant == "exact":
+        # method=None: only exact matches are accepted
+        allz = all(dist(slon, slat, lo, la).min() == 0 for lo, la in zip(qlon, qlat))
+        try:
+            r = ds.spec.sel(list(qlon), list(qlat), method=None, tolerance=tol, **kw)
+            ok_ = allz and not fail
+        except AssertionError:
+            ok_ = (not allz) or fail
+            r = None
+        except Exception as e:
+            rec.bad("nearest", key, dict(det, raised=repr(e)[:200]), "sel-raises")
+            return
+        if not ok_:
+            rec.bad("nearest", key, dict(det, all_exact=allz, returned=r is not None), "exact-selection-wrong-verdict")
+            return
+        if r is None:
+            rec.ok("nearest", key + "|inexact-rejected")
+            return
+        kw = None
     try:
-        r = ds.spec.sel(list(qlon), list(qlat), method="nearest", tolerance=tol, **kw)
+        if kw is not None:
+            r = ds.spec.sel(list(qlon), list(qlat), method="nearest", tolerance=tol, **kw)
     except AssertionError as e:
         if fail:
             rec.ok("nearest", key + "|too-far-rejected")
